@@ -28,6 +28,7 @@ func checkC01(r *Run) {
 	if m, _ := c.reconnModel(); m != nil {
 		c.ruleLoopStopsOnlyOnRequest(r8, m)
 	}
+	c.ruleErrBeforeDone(r8) // Done() before the error is recorded reads as a graceful end: the loop stops
 	c.ruleWrapKeepsHandle(r5)
 	c.ruleTaskContext(r4)
 }
